@@ -248,6 +248,18 @@ Theorem C10_hint_loop_over_candidates : hint_loop_okb Gen_Members.add_loops Gen_
 Proof. exact Inst_C10.hint_loop_over_candidates. Qed.
 Print Assumptions C10_hint_loop_over_candidates.
 
+Theorem C10_hint_test_is_equality : hint_test_okb Gen_Members.hint_tests = true.
+Proof. exact Inst_C10.hint_test_is_equality. Qed.
+Print Assumptions C10_hint_test_is_equality.
+
+(* instance: every write on self found in a method that is read-only by its name is one of the known ones *)
+Theorem C10_read_only_helpers_write_nothing_new : forall w, In w Gen_Members.reader_writes -> In w known_reader_writes.
+Proof.
+  intros w H. pose proof Inst_C10.read_only_helpers_write_nothing_new as S. unfold readers_write_nothing_newb, subset in S.
+  rewrite forallb_forall in S. specialize (S w H). exact (proj1 (mem_In _ _) S).
+Qed.
+Print Assumptions C10_read_only_helpers_write_nothing_new.
+
 (* ---- the value equality behind the duplicate test (C10_dup's `equal_to`) is the code's GeneratedsSuper.__eq__:
    translators/tr_eq.py (fail closed) extracts the attribute names __eq__ leaves out of the pairwise comparison of the
    instance dictionaries; they are exactly the two bookkeeping attributes, so no member attribute of any class
